@@ -168,7 +168,7 @@ func (d *Decoder) DecodeString() (string, error) {
 	if d.offset >= len(d.p) {
 		return "", io.ErrUnexpectedEOF
 	}
-	b, err := d.DecodeBytes()
+	b, err := d.decodeRawBytes()
 	if err != nil {
 		return "", fmt.Errorf("invalid data at byte %d: %w", d.offset, err)
 	}
@@ -184,8 +184,23 @@ func (d *Decoder) DecodeString() (string, error) {
 
 // DecodeBytes decodes a length-delimited slice of bytes from the stream and returns the value.
 //
+// In safe mode the result is a copy.  In fast mode it aliases the buffer passed to the decoder.
+//
 // io.ErrUnexpectedEOF is returned if the operation would read past the end of the data.
 func (d *Decoder) DecodeBytes() ([]byte, error) {
+	b, err := d.decodeRawBytes()
+	if err != nil || d.mode == DecoderModeFast {
+		return b, err
+	}
+	// safe mode: the caller may modify or reuse the input buffer afterwards
+	res := make([]byte, len(b))
+	copy(res, b)
+	return res, nil
+}
+
+// decodeRawBytes decodes a length-delimited slice of bytes from the stream and returns the sub-slice
+// of the underlying buffer that holds it.
+func (d *Decoder) decodeRawBytes() ([]byte, error) {
 	if d.offset >= len(d.p) {
 		return nil, io.ErrUnexpectedEOF
 	}
